@@ -170,6 +170,11 @@ def scenario_case(ctx, case):
     if state == 'timeout':
         from vlib.core import HarnessError
         raise HarnessError('C09 scenario did not settle: %r' % (case,))
+    if state == 'blocked':
+        ctx.fail('scenario', 'N5-client-blocks-in-read', case,
+                 'the client waits for ever for bytes the server never '
+                 'announced')
+        return
     if state == 'idle':
         ctx.fail('scenario', 'N5-thread-never-terminates', case,
                  'networking thread idles for ever after the conversation',
